@@ -884,3 +884,33 @@ def rule_merge_owned(ctx, R):
     ft = b.find_calls(STORE + '::fetch_tracks')
     okf = bool(ft) and eb.arg(ft[0], 1).has_place(root=('param', 3))
     ctx.check(okf, R, b, 'fetches-src_id', '', 'merge_owned does not fetch exactly the source id')
+
+
+def rule_worker_keeps_serving(ctx, R):
+    """a shard worker answers every command it will ever get: only `Drop` (shutdown), a closed command channel, and -
+    as on the reference tree - an undeliverable FindBaked answer end its loop.  An arm that `return`s because the caller
+    of THIS command went away (dropped its future / response) leaves the shard without a worker: every later merge,
+    lookup or query on that shard fails or blocks."""
+    body, arms = worker_arms(ctx, R)
+    if body is None or not arms:
+        return 0
+    loops = body.loops()
+    rbs = recv_block(body)
+    rb = rbs[0] if isinstance(rbs, (list, tuple)) and rbs else rbs
+    hs = [h for h, bl in loops.items() if rb in bl]
+    if not hs:
+        ctx.note(R, 'the worker serves its commands without an explicit loop (iterator form): keeps-serving rule not evaluated')
+        return 0
+    H = max(hs, key=lambda h: len(loops[h]))
+    n = 0
+    for v, start in sorted(arms.items()):
+        if v in ('Drop', 'Err', 'Ok', 'FindBaked'):
+            continue
+        reach = body.reach_from(start, avoid=(H,))
+        ends = [r for r in body.returns() if r in reach]
+        n += 1
+        ctx.check(not ends, R, body, 'arm:%s-keeps-the-worker-alive' % v, '',
+                  'the %s arm of the store worker can end the worker thread (a path from the arm reaches `return` without '
+                  'coming back to the command loop): after one undeliverable answer the shard has no worker left and every '
+                  'later operation on it fails' % v)
+    return n
